@@ -174,7 +174,8 @@ def translate_pattern(pattern: str, flags: int = 0, xsd_version: str = '1.0',
                 msg = "invalid '(?...)' extension notation at position {}: {!r}"
                 raise RegexError(msg.format(pos, pattern))
 
-            total_groups += 1
+            if pattern[pos:pos + 3] != '(?:':
+                total_groups += 1  # only capturing groups can be referenced
             nested_groups += 1
             regex.append(group_open_char)
 
